@@ -166,7 +166,12 @@ class LintedFile(NamedTuple):
             violations = [v for v in violations if not v.warning]
         # Add warnings for unneeded noqa if applicable
         if warn_unused_ignores and not filter_warning and self.ignore_mask:
-            violations += self.ignore_mask.generate_warnings_for_unused()
+            # NOTE: A noqa comment within a templated loop appears once per
+            # pass of the loop, so deduplicate (which also restores source
+            # order, and avoids extending `self.violations` in place).
+            violations = self.deduplicate_in_source_space(
+                violations + self.ignore_mask.generate_warnings_for_unused()
+            )
         return violations
 
     def num_violations(
